@@ -82,14 +82,14 @@ def template_instances(draw, allow, max_inst=6):
     return out
 
 
-SIZE_KEYS = {'do_all': 1, 'do_all_exceptions': 1, 'n_per_length': 1,
+SIZE_KEYS = {'do_all': 0, 'do_all_exceptions': 1, 'n_per_length': 1,
              'max_sampled_attempts': 0, 'max_punc_in_group': 1,
              'max_strings_in_group': 1, 'use_sampling': 0}
 
 
 def size_strategy():
     sampling = st.fixed_dictionaries({
-        'do_all': st.integers(1, 6),
+        'do_all': st.sampled_from([0, 1, 1, 2, 3, 4, 5, 6]),
         'do_all_exceptions': st.integers(1, 6),
         'n_per_length': st.integers(1, 4),
         'max_sampled_attempts': st.integers(0, 2),
